@@ -12,10 +12,12 @@ is more robust w.r.t. argument numbering than using repr.
 # Modified by Anders Logg, 2009-2010.
 # Modified by Johan Hake, 2010.
 
+import re
 from functools import cmp_to_key
 
 from ufl.argument import Argument
 from ufl.coefficient import Coefficient
+from ufl.constantvalue import ConstantValue
 from ufl.core.multiindex import FixedIndex, MultiIndex
 from ufl.variable import Label
 
@@ -88,12 +90,33 @@ def _cmp_argument(a, b):
         return 0
 
 
+_digits = re.compile(r"(\d+)")
+
+
+def _natural_key(s):
+    """Split a string into text and number chunks, numbers compared by value."""
+    chunks = _digits.split(s)
+    chunks[1::2] = map(int, chunks[1::2])
+    return chunks
+
+
 def _cmp_terminal_by_repr(a, b):
     """Cmp terminal by repr."""
     # The cost of repr on a terminal is fairly small, and bounded
     x = repr(a)
     y = repr(b)
-    return -1 if x < y else (0 if x == y else 1)
+    if x == y:
+        return 0
+    if not isinstance(a, ConstantValue):
+        # The repr of counted terminals and of terminals defined on a mesh
+        # contains counts and mesh ids. Compare those by value, not as text:
+        # "9" > "10" as text, which made the ordering (and hence signatures)
+        # depend on the absolute values of the global counters.
+        kx = _natural_key(x)
+        ky = _natural_key(y)
+        if kx != ky:
+            return -1 if kx < ky else 1
+    return -1 if x < y else 1
 
 
 # Hack up a MultiFunction-like type dispatch for terminal comparisons
